@@ -210,6 +210,11 @@ func (ut UnitType) findByAlias(alias string) *Unit {
 // specified alias. It returns nil if the unit with such alias is not found.
 func (ut UnitType) sniffUnit(unit string) *Unit {
 	unit = strings.ToLower(unit)
+	// An exact alias wins, so that aliases ending in "s" which are longer
+	// than two bytes (e.g. "μs") are not mistaken for plurals.
+	if u := ut.findByAlias(unit); u != nil {
+		return u
+	}
 	if len(unit) > 2 {
 		unit = strings.TrimSuffix(unit, "s")
 	}
